@@ -2176,6 +2176,29 @@ class SQLModel:
             if subsql_add_query_name
             else None,
         )
+        if is_union:
+            # a union member that ends in its own ORDER BY / LIMIT (or other suffix) must be a sub-select
+            def _wrap_union_member(sub_container, substr, side_name):
+                sub_near = sub_container.near_sql
+                sub_suffix = getattr(sub_near, "suffix", None)
+                if (
+                    isinstance(sub_near, data_algebra.near_sql.NearSQLUnaryStep)
+                    and (sub_suffix is not None)
+                    and (len(sub_suffix) > 0)
+                ):
+                    return (
+                        ["SELECT * FROM ("]
+                        + [sql_format_options.sql_indent + si for si in substr]
+                        + [") " + self.quote_identifier(side_name)]
+                    )
+                return substr
+
+            substr_1 = _wrap_union_member(
+                near_sql.sub_sql1, substr_1, near_sql.query_name + "_a"
+            )
+            substr_2 = _wrap_union_member(
+                near_sql.sub_sql2, substr_2, near_sql.query_name + "_b"
+            )
         sql = (
             [sql_start]
             + self._indent_and_sep_terms(
